@@ -10,7 +10,7 @@ from decimal import Decimal
 import numpy as np
 
 from ..core import violation, Discard
-from ..gen_scenes import gen_chain_scene, gen_contact_scene
+from ..gen_scenes import gen_chain_scene, gen_contact_scene, gen_rod_scene
 from ..scenes import build
 from ..seams import Sim
 from ..session import (
@@ -110,7 +110,15 @@ def gen(rng, tier, index):
         plan["iter_goal"] = int(rng.integers(2, 5))
         return plan
     contact = name in NONSMOOTH and rng.random() < 0.4
-    if contact:
+    rodscene = name in ("Rattle", "BackwardEuler") and rng.random() < 0.3
+    if rodscene:
+        # a Cosserat rod in the system: fields of width nla_c / nla_g of the rod, and a system object whose rod
+        # class is created at run time by the rod factory (what save / load has to cope with)
+        contact = False
+        plan["scene_kind"] = "rod"
+        plan["scene"] = gen_rod_scene(rng)
+        plan["saveload"] = bool(rng.random() < 0.8)
+    elif contact:
         plan["scene_kind"] = "contact"
         plan["scene"] = gen_contact_scene(rng, nspheres=int(rng.integers(1, 3)))
     else:
@@ -274,6 +282,8 @@ def execute(plan, out, log):
     if truncated:
         out["probes"]["truncated_by_fault" if f else "truncated_organically"] += 1
     out["probes"][f"ran_{name}"] += 1
+    if plan.get("scene_kind") == "rod":
+        out["probes"]["rod_in_system"] += 1
     nt = len(sol.t)
     out["steps"] = max(nt - 1, 0)
     log.ev("solution", name, nt, np.asarray(sol.t, dtype=float))
